@@ -40,5 +40,5 @@ for seed in sorted(os.listdir("/verif/seeded")):
     meta["detected_by"] = det
     meta["evaluation"] = rows.get(seed, {})
     json.dump(meta, open(d + "/meta.json", "w"), indent=1)
-open("/verif/seeded/RESULTS.md", "w").write("\n".join(out) + "\n")
+open("/verif/seeded/RESULTS.md", "w").write("\n".join(out) + "\n\nNarrative (what was missed at first and what was changed): seeded/NOTES.md\n")
 print("\n".join(out[-30:]))
